@@ -151,6 +151,8 @@ def Answer.verdict (a : Answer) : Verdict :=
     | .problem ty => if recoverable ty then .retry else .fail
     | _ => .fail
 
+def Answer.isRetry (a : Answer) : Bool := a.verdict == .retry
+
 /-! ## Results, events, state -/
 
 inductive Err
@@ -450,10 +452,29 @@ def pollWaits (evs : List Ev) : Nat :=
   (evs.filter fun | .pollWait _ => true | _ => false).length
 
 /-- The newest nonce handed out so far (`cur` = the one before the trace). -/
-def lastIssued (cur : Option Nat) (evs : List Ev) : Option Nat :=
-  match (issuedBy evs).getLast? with
-  | some n => some n
-  | none => cur
+def lastIssued : Option Nat → List Ev → Option Nat
+  | cur, [] => cur
+  | cur, .recvGet a :: es => lastIssued (a.issued.or cur) es
+  | cur, .recvPost a :: es => lastIssued (a.issued.or cur) es
+  | cur, _ :: es => lastIssued cur es
+
+/-- Bodies of the POST answers that made `post` return `Ok`, in order (one per successful call). -/
+def okBodies (evs : List Ev) : List Body :=
+  ((postAnswers evs).filter fun a => a.verdict == .success).map Answer.body
+
+/-- Reference automaton of the nonce discipline over a trace.  `cur` is the nonce the client may
+use next.  Every answer that issues a nonce replaces it.  A POST must carry exactly `cur`; in mode
+`take` it must be a real nonce and it is used up (`cur` becomes `none`), in mode `cloneOld` it
+stays.  Result: `none` = the trace breaks the discipline, `some c` = it keeps it and ends with `c`. -/
+def walk (mode : NonceMode) : Option Nat → List Ev → Option (Option Nat)
+  | cur, [] => some cur
+  | cur, .postSend _ n _ :: es =>
+    match mode with
+    | .take => if n = cur ∧ n ≠ none then walk mode none es else none
+    | .cloneOld => if n = cur then walk mode cur es else none
+  | cur, .recvGet a :: es => walk mode (a.issued.or cur) es
+  | cur, .recvPost a :: es => walk mode (a.issued.or cur) es
+  | cur, _ :: es => walk mode cur es
 
 def Ev.isSend : Ev → Bool
   | .getSend _ => true
